@@ -283,9 +283,15 @@ class InternalCompiler(Compiler):
                 iret = qc.add_qubit(sym.name)
                 qc.cx(qc[expr.name], iret)
                 return iret
-            # 1.2 Remap otherwise
+            # 1.2 Remap otherwise; an alias of an argument qubit is copied like the argument
+            # itself, so that an output never shares its qubit with an input
             else:
-                return qc[expr.name]
+                idx = qc[expr.name]
+                if idx < len(self.input_symbols):
+                    iret = qc.add_qubit(sym.name)
+                    qc.cx(idx, iret)
+                    return iret
+                return idx
 
         # 2. Returns symbol' index
         if expr.name not in qc:
